@@ -10,6 +10,7 @@ import GoatModel.Merkle
 import GoatModel.Relayer
 import GoatModel.Bitcoin
 import GoatModel.Locking
+import GoatModel.LockingParams
 import GoatModel.Comet
 namespace Goat.World
 open Goat.Wire
@@ -369,6 +370,12 @@ def step (w : W) (o : Op) : W × String :=
     (w, match bc.decodeAddr a with
         | some sc => "=> " ++ hexD sc
         | none => "=> x")
+  | "lock.validateparams" =>
+    let p : LockingParams.RawParams :=
+      { unlockDuration := o.int "unlock", exitingDuration := o.int "exit", downtimeJail := o.int "jail", maxValidators := o.int "maxvals",
+        signedBlocksWindow := o.int "window", maxMissed := o.int "maxmissed", slashDoubleSign := o.int "slashds", slashDowntime := o.int "slashdt",
+        halvingInterval := o.int "halving", initialReward := o.int "reward" }
+    (w, if LockingParams.paramsValidate p then "=> ok" else "=> err")
   | "addr.verify" =>
     let pk := pubKeyOf (o.str "kind") (o.bytes "key")
     (w, "=> " ++ boolStr (if o.str "version" == "0" then Bitcoin.verifyDepositScriptV0 bc pk (o.bytes "evm") (o.bytes "out0")
